@@ -62,6 +62,8 @@ type scenario struct {
 	Prefix   []string    `json:"prefix,omitempty"`
 	Free     bool        `json:"free,omitempty"` // no gates: goroutines run freely (parallel)
 	Graceful int         `json:"graceful,omitempty"`
+	Readers  int         `json:"readers,omitempty"`  // free-running outer-cancel round: number of readers
+	Children int         `json:"children,omitempty"` // ... and of contexts derived from each reader's context
 	Script   []ostep     `json:"script,omitempty"`
 }
 
